@@ -647,13 +647,25 @@ def run_bulk(net, op, findings, step, history, case):
 def std_type_pairs(case, findings):
     import pandapipes as pp
     # pipe: standard type vs its parameters
+    std = case["std_pair"]
+    # another net of the same process whose copy of the types the user changed in place: no other net may see that
+    n0 = pp.create_empty_network(fluid="water")
+    n0.std_types["pipe"][std]["inner_diameter_mm"] = 1.0
+    n0.std_types["pipe"][std]["k_mm"] = 77.0
+    for pt in n0.std_types.get("pump", {}).values():
+        if hasattr(pt, "reg_par") and isinstance(pt.reg_par, np.ndarray):
+            pt.reg_par *= 0.5
     n1 = pp.create_empty_network(fluid="water")
     n2 = pp.create_empty_network(fluid="water")
     for n in (n1, n2):
         pp.create_junctions(n, 2, 5.0, 300.0)
-    std = case["std_pair"]
     pp.create_pipe(n1, 0, 1, std, 0.7, loss_coefficient=1.5, sections=2, text_k=285.0)
-    par = n1.std_types["pipe"][std]
+    par = dict(n1.std_types["pipe"][std])
+    from .c19 import pipe_library
+    for k_, v_ in pipe_library()[std].items():
+        if k_ != "u_w_per_m2k" and not same(float(par.get(k_, float("nan"))), v_):
+            findings.append(Finding("std_type", "C16.std_type_differs_from_library." + k_,
+                                    {"std_type": std, "in_net": repr(par.get(k_)), "library_file": v_}))
     kw = dict(length_km=0.7, inner_diameter_mm=par["inner_diameter_mm"], loss_coefficient=1.5, sections=2, text_k=285.0,
               k_mm=par.get("k_mm", 0.2))
     od = par.get("outer_diameter_mm")
